@@ -33,6 +33,10 @@ def real_cases(pid, tier="thorough"):
             _mk([1, 2, 3, 4, 5], {1: "different", 2: "player_raises", 3: "extractor_raises", 4: "comparator_raises"},
                 rate=2, timeout=2, keep=True),
             _mk([1, 2, 3, 4], {2: "bare:Fixed", 3: "extractor_raises"}, rate=1, timeout=2, keep=False),
+            # verdict shapes across a real pipe (pickled): full result with a diff, a structured message the framework
+            # cannot render (not last), a subclass instance with a diff, a bare value that is no status
+            _mk(ids6, {2: "cr:Different:text:1:plain", 3: "cr:Failed:struct:1:plain", 4: "cr:Fixed:none:1:sub",
+                       5: "foreign:none"}, rate=2, timeout=2, keep=True),
         ]
     return common + [
         _mk([1, 2, 3, 4, 5], {1: "hang_deaf", 5: "exit0"}, rate=1, timeout=1),      # faults first and last
@@ -60,6 +64,9 @@ def anomalies(case, run):
     lost = set(ids[k] for k in after_kill if k < len(cmps) and cmps[k][2] in ("died", "timeout"))
     if run["outcome"] in ("stuck", "abort-exit"):
         out.append(("C13", "run-blocks-forever", "run did not finish: %s after %d comparisons" % (run["outcome"], len(cmps))))
+    if run["outcome"].startswith("escaped"):
+        out.append(("C08", "run-aborted", "an exception left run_comparison (%s) after %d of %d comparisons: the other "
+                    "recordings got none" % (run["outcome"], len(cmps), n)))
     if [c[0] for c in cmps] != ids[:n]:
         out.append(("C08", "count-or-order", "comparisons labelled %s for ids %s" % ([c[0] for c in cmps], ids[:n])))
     for k, c in enumerate(cmps[:n]):
@@ -67,8 +74,10 @@ def anomalies(case, run):
         if c[3] is not None and c[3] != c[0]:
             out.append(("C08", "foreign-replay-attached", "comparison labelled r%s carries the replay of r%s" % (c[0], c[3])))
         exp = G.expected_status(b, True, T if not b.startswith("slow") else 10**6)
-        if exp is not None and c[1] != exp and ids[k] not in lost:
+        if not G.status_ok(exp, c[1]) and ids[k] not in lost:
             out.append(("C08", known or "wrong-status", "r%s (%s): status %s, expected %s [%s]" % (ids[k], b, c[1], exp, c[2])))
+        if c[0] == ids[k]:
+            out += [("C08", known or sg, m) for sg, m in G.payload_fails(b, c)]
         if k < len(run["walls"]) and run["walls"][k] > T + 3:
             out.append(("C13", "wait-too-long", "comparison of r%s (%s) took %.1f s, timeout %d s" % (ids[k], b, run["walls"][k], T)))
     if run.get("inproc") is not None and run["inproc"] != cmps:
